@@ -352,6 +352,32 @@ def s_forward_response(vc):
 
 
 # =============================================================================================
+# decoding contracts shared with C25 (the forwarded meaning rests on them): the same contract functions, run as C26 obligations
+
+def _c25():
+    from props import C25
+    return C25
+
+
+FRAMING_CANDS = [dict(name0="wWw.ExAmPlE.CoM", name1="MaIl.Example.ORG", name2="A.b"), dict(name0="example.com", name1="ns.example.com", name2="x")]
+
+
+@scenario("decode.compressed_name", functions=[DN + "unpack_from_with_compression"], max_unroll=4)
+def s_compressed_name(vc):
+    """Expanding a compressed name (RFC 1035 §4.1.4): the pointer target is the full 14-bit offset, labels read before the
+    pointer are followed by the labels of the target (contract text: props/C25.py s_compressed)."""
+    return _c25().s_compressed.fn(vc)
+
+
+@scenario("decode.records_as_read", functions=[M + ".unpack_from"], max_unroll=2, candidates=FRAMING_CANDS)
+def s_records_as_read(vc):
+    """Decoding keeps what was sent: question and owner names exactly as the name reader returned them (case included), type,
+    class, TTL unchanged, RDATA verbatim unless the TYPE is name-bearing - whatever the CLASS - in which case it is the
+    decompressed RDATA (contract text: props/C25.py _unpack_framing)."""
+    return _c25()._unpack_framing(vc, [(1, 1, 0, 0)], False)
+
+
+# =============================================================================================
 # T2 (bounded): real DNSLayer driven sans-io; meaning compared by the independent reference decoder props/dnsref.py
 
 ASSUMPTIONS = [
@@ -482,6 +508,31 @@ def _cases(tier, rnd):
     assert len(header(1, 0, 1) + question(Q, 1) + pad2) == 192
     cases.append(("", header(0x2225, 0x0100, 1) + question(Q, 1),
                   header(0x2225, 0x8180, 1, 3) + question(Q, 1) + pad2 + rr(wire_name("t.example.org"), 1, b"\x01\x02\x03\x04") + rr(P, 14, ptr(192) + b"\x0cabcdefghijkl\x00")))
+    # a message longer than 1 KiB with compression pointers whose targets lie beyond offset 1024 (all 14 offset bits matter)
+    big = [rr(P, 16, b"".join(b"\xb4" + bytes([0x61 + (i % 26)]) * 180 for i in range(k, k + 2))) for k in (0, 2, 4)]   # 3 TXT records, > 1 KiB
+    base = header(1, 0, 1) + question(Q, 1) + b"".join(big)
+    assert len(base) > 1024
+    far = len(base)   # owner name written out here: offset >= 1024
+    glue = rr(wire_name("ns1.other-dns.net"), 1, b"\xc6\x33\x64\x01")
+    far2 = far + 4    # 'other-dns.net' inside that owner name
+    for tail_records in ([rr(P, 2, ptr(far))], [rr(ptr(far), 28, bytes(range(16)))], [rr(P, 15, b"\x00\x0a\x02mx" + ptr(far2))],
+                         [rr(P, 6, ptr(far) + b"\x05admin" + ptr(far2) + struct.pack("!IIIII", 1, 2, 3, 4, 5))], [rr(b"\x03www" + ptr(far2), 5, ptr(far))]):
+        for ident in (0x2230,):
+            cases.append(("", header(ident, 0x0100, 1) + question(Q, 1),
+                          header(ident, 0x8180, 1, 4 + len(tail_records)) + question(Q, 1) + b"".join(big) + glue + b"".join(tail_records)))
+    # classes other than IN (CH, HS, mDNS cache-flush bit, ANY, NONE): name expansion depends on the TYPE only
+    other = wire_name("ns2.elsewhere.net")
+    for cls_ in (3, 4, 0x8001, 255, 254):
+        o_at = len(header(1, 0, 1) + question(Q, 1)) + len(rr(P, 16, b"\x02hi", cls=cls_))
+        first = rr(P, 16, b"\x02hi", cls=cls_) + rr(other, 1, b"\x01\x02\x03\x04", cls=cls_)
+        for typ, rd in ((2, ptr(o_at)), (5, b"\x03www" + ptr(o_at + 4)), (12, ptr(o_at)), (15, b"\x00\x05" + ptr(o_at)), (33, b"\x00\x01\x00\x02\x01\xbb" + ptr(o_at)),
+                        (6, ptr(o_at) + b"\x04root" + ptr(o_at + 4) + struct.pack("!IIIII", 1, 2, 3, 4, 5))):
+            cases.append(("", header(0x2240, 0x0100, 1) + question(Q, typ, cls_),
+                          header(0x2240, 0x8180, 1, 3) + question(Q, typ, cls_) + first + rr(P, typ, rd, cls=cls_)))
+    # upper-/mixed-case names (dns-0x20): the case of every label is forwarded as sent, in queries, owner names and RDATA names
+    MIX = wire_name("wWw.ExAmPlE.CoM")
+    cases.append(("", header(0x2250, 0x0100, 1) + question(MIX, 1), header(0x2250, 0x8180, 1, 2) + question(MIX, 1) + rr(P, 5, b"\x03CdN" + ptr(16)) + rr(wire_name("CDN.ExAmPlE.CoM"), 1, b"\x01\x02\x03\x04")))
+    cases.append(("", header(0x2251, 0x0100, 1) + question(MIX, 15), header(0x2251, 0x8180, 1, 1) + question(MIX, 15) + rr(P, 15, b"\x00\x0a" + wire_name("MaIl.Example.COM"))))
     # ---- recorded classes
     k1 = "txt_or_hinfo_rdata_with_octet>=0xc0"          # KF-C26-1
     cases.append((k1,) + resp(Q, [rr(P, 16, b"\x02\xc0\x0c")]))
